@@ -136,6 +136,15 @@ def extra_parts(chk, w, tier):
 PAR_PARTS = {}
 
 
+def add_par_part(pid, modes):
+    def f(chk, w, tier):
+        first = par_part(chk, w, tier, modes)
+        chk.cov["samples"].append({"parallel_run": [e for e in first[len(first) // 2] if e["ev"] in ("reset", "locked", "workload", "pop", "push", "wait", "cutoff_fires", "return")][:14]})
+        chk.cov["rule"] += "; plus " + PAR_RULE
+        chk.assumptions += PAR_ASSUME
+    PAR_PARTS[pid] = f
+
+
 def c17_runs(chk, w, tier):
     """C17 on the bounds of real runs (optimum 0 or negative included): the gap flags ride on every return event"""
     batches = seq_batches(w, tier, [("base", "allimpacted", 5, 60, 200, []), ("cutoff", "allimpacted", 5, 12, 40, [])], name="gapruns")
@@ -159,3 +168,162 @@ CHECKS = {
                             "; cutoff series: the cutoff fires at every poll index k = 1..K+1 (K = polls of the uninterrupted run)"),
     "C15": simple_seq_check("C15", [("longarc", "longarcs", 6, 300, 800, []), ("longarc", "longarcs", 7, 100, 300, [])], "; long-arc models (depth-free lifted tables with neutral elements, set-packing with is_impacted_by): plain diagram vs pooled, cache off/on"),
 }
+
+
+# =============================================================================== parallel solver (engine `par`)
+def run_par(out, args, timeout=1800):
+    """run the par engine to completion; it exits with 3 after writing a run that deadlocked / livelocked: restart after it"""
+    if os.path.exists(out):
+        os.remove(out)
+    start, restarts = 0, 0
+    while True:
+        p = run_bin("par", list(args) + ["--start", start, "--out", out], check=False, timeout=timeout)
+        if p.returncode == 0:
+            return restarts
+        if p.returncode != 3:
+            log(p.stderr[-3000:])
+            raise ToolError(f"engine par exited with {p.returncode}")
+        restarts += 1
+        with open(out) as f:
+            start = sum(1 for l in f if l.startswith('{"cfg"') or '"ev":"reset"' in l[:400])
+        if restarts > 200:
+            raise ToolError("engine par: too many stuck runs")
+
+
+def par_dev(chk):
+    def f(tag, line, run, sig, rr, tr, args, evs):
+        reset, ret = rr[0], rr[-1]
+        conf = reset["cfg"]
+        sched = ret.get("sched", {})
+        # replay = the instance, the configuration and the schedule actually executed (granted worker per step) + cutoff step
+        c2 = dict(conf)
+        if conf["sched"] != "free":
+            c2["sched"] = "policy"
+            c2["policy"] = sched.get("granted", [])
+        rp = {"engine": "par", "job": {"inst": reset["inst"], "cfg": c2, "role": reset["role"]}, "line": line}
+        short = {k: conf[k] for k in ("dd", "cache", "dom", "fringe", "width", "nconstr", "nspawn", "sched", "cut_step", "cut_poll")}
+        chk.violation(tag, rp, f"{tag}: {short} family {reset['inst']['family']} n={reset['inst']['n']}; outcome "
+                      f"{json.dumps({k: ret.get(k) for k in ('ev', 'verdict', 'is_exact', 'best_value', 'best_lb', 'best_ub', 'cutoff_fired')})}; schedule {sched.get('granted', [])[:60]}",
+                      signature=KNOWN_SIGS.get(sig))
+    return f
+
+
+def par_stats(chk, runs):
+    st = chk.cov.setdefault("par_runs", {})
+    seen = chk.__dict__.setdefault("_seen", set())
+    for rr in runs:
+        reset, ret = rr[0], rr[-1]
+        c = reset["cfg"]
+        k = f"{reset['role']}/{c['sched']}/{c['nspawn']}w/{c['dd']}/{'cache' if c['cache'] else 'nocache'}/{c['fringe']}"
+        st[k] = st.get(k, 0) + 1
+        nontrivial = (c["nspawn"] >= 2 and ret.get("explored", 0) >= 2) or ret.get("cutoff_fired")
+        key = (json.dumps(reset["inst"], sort_keys=True), json.dumps(c, sort_keys=True), json.dumps(ret.get("sched", {}).get("granted")))
+        if nontrivial and key not in seen:
+            seen.add(key)
+            chk.cov["distinct_nontrivial"] += 1
+        chk.cov["schedule_steps"] = chk.cov.get("schedule_steps", 0) + ret.get("sched", {}).get("steps", 0)
+        chk.cov["schedule_divergences"] = chk.cov.get("schedule_divergences", 0) + ret.get("sched", {}).get("diverged", 0)
+
+
+def par_jobs_cut_sweep(w, sched_trace, cap_per_run, max_jobs, name):
+    """for every scheduled uninterrupted run: the same schedule with the cutoff flag raised at every scheduler step"""
+    jobs = []
+    for rr in split_runs(read_ndjson(sched_trace)):
+        reset, ret = rr[0], rr[-1]
+        if ret["ev"] != "return" or reset["cfg"]["sched"] == "free":
+            continue
+        granted = ret["sched"]["granted"]
+        steps = list(range(0, len(granted) + 1))
+        if len(steps) > cap_per_run:
+            steps = sorted(random.Random(SEED + len(jobs)).sample(steps, cap_per_run))
+        for k in steps:
+            c = dict(reset["cfg"])
+            c.update({"sched": "policy", "policy": granted, "cut_step": k})
+            jobs.append({"inst": reset["inst"], "cfg": c, "role": "cut"})
+        if len(jobs) >= max_jobs:
+            break
+    f = os.path.join(w, f"{name}_jobs.json")
+    json.dump(jobs[:max_jobs], open(f, "w"))
+    return f, len(jobs[:max_jobs])
+
+
+def par_part(chk, w, tier, modes):
+    """modes: list of (mode, family, maxn, instances_q, instances_t, per_instance, threads)"""
+    thorough = tier == "thorough"
+    batches = []
+    for b in range(1 if not thorough else 4):
+        for i, mm in enumerate(modes):
+            (mode, fam, maxn, nq, nt, per, threads), xtra = mm[:7], list(mm[7:])
+            tr = os.path.join(w, f"par_{mode}_{fam}_{maxn}_{b}_{i}.ndjson")
+            if mode == "cutsweep":
+                base = os.path.join(w, f"par_cutbase_{fam}_{maxn}_{b}_{i}.ndjson")
+                run_par(base, ["--seed", SEED * 1000 + b * 31 + i, "--instances", nt if thorough else nq, "--family", fam, "--mode", "sched", "--maxn", maxn, "--per-instance", per, "--threads", threads] + xtra)
+                jf, nj = par_jobs_cut_sweep(w, base, 40 if not thorough else 400, 2500 if not thorough else 20000, f"cut_{fam}_{maxn}_{b}_{i}")
+                chk.cov["restarts_after_stuck_runs"] = chk.cov.get("restarts_after_stuck_runs", 0) + run_par(tr, ["--jobs", jf])
+                batches.append((tr, ["--jobs", jf]))
+            else:
+                args = ["--seed", SEED * 1000 + b * 31 + i, "--instances", nt if thorough else nq, "--family", fam, "--mode", mode, "--maxn", maxn, "--per-instance", per, "--threads", threads] + xtra
+                chk.cov["restarts_after_stuck_runs"] = chk.cov.get("restarts_after_stuck_runs", 0) + run_par(tr, args)
+                batches.append((tr, args))
+    first = None
+    for tr, evs, runs in validate_many(chk, batches, "TracePar", "TracePar.cfg", par_dev(chk)):
+        par_stats(chk, runs)
+        first = first or runs
+    return first
+
+
+def par_replay(chk, w, replay):
+    rp = json.load(open(replay))["replay"]
+    jf = os.path.join(w, "job.json")
+    json.dump([rp["job"]], open(jf, "w"))
+    tr = os.path.join(w, "replay.ndjson")
+    run_par(tr, ["--jobs", jf])
+    for _ in validate_many(chk, [(tr, ["--jobs", jf])], "TracePar", "TracePar.cfg", par_dev(chk)):
+        pass
+    chk.cov.update({"distinct_nontrivial": 2, "samples": [rp["job"]["cfg"]]})
+    return chk.finish()
+
+
+PAR_RULE = ("real ParallelSolver runs under the deterministic scheduler over the hooks of parallel.rs (one worker at a time between two lock acquisitions; schedules: seeded random, "
+            "PCT-style priorities, replayed policies; 1..4 workers; optional gates at cache operations) and free-running real threads (2..16); every critical section, fringe / cache "
+            "operation and compilation is an event; TLC replays each run through ParBnB.tla (snapshot agreement after each lock acquisition) and checks the outcome against DPModel's oracle; "
+            "non-trivial = >= 2 workers and >= 2 explored sub-problems, or the cutoff fired; distinct = distinct (instance, configuration, executed schedule)")
+PAR_ASSUME = ["the hooks announce every acquisition of the critical mutex made by a worker (a lock site added without hook is invisible)",
+              "DashMap internals are exercised by real threads only (free-running runs and C18)", "deadlock verdict = quiescent state with parked workers and nobody at a gate (1.5 s grace)"]
+
+
+def par_check(pid, modes, seq_plan=None, rule_extra=""):
+    def f(tier, replay):
+        chk = Check(pid, tier)
+        w = workdir(pid)
+        if replay:
+            rp = json.load(open(replay))["replay"]
+            return par_replay(chk, w, replay) if rp.get("engine") == "par" else seq_replay(chk, w, replay)
+        first = par_part(chk, w, tier, modes)
+        chk.cov["samples"] = [{"parallel_run": [e for e in first[len(first) // 2] if e["ev"] in ("reset", "locked", "workload", "pop", "push", "wait", "return")][:14]}]
+        if seq_plan:
+            firsts = None
+            for tr, evs, runs in validate_many(chk, seq_batches(w, tier, seq_plan), "TraceSeq", "TraceSeq.cfg", seq_dev(chk)):
+                seq_stats(chk, runs)
+                firsts = firsts or runs
+            chk.cov["samples"].append({"sequential_run": sample_run(firsts)})
+        chk.cov["rule"] = PAR_RULE + ("; plus " + SEQ_RULE if seq_plan else "") + rule_extra
+        chk.assumptions = PAR_ASSUME + (SEQ_ASSUME if seq_plan else [])
+        return chk.finish()
+    return f
+
+
+FOCUS = ["--cfg", json.dumps({"dd": "lel", "cache": True, "fringe": "simple", "width": 1})]   # pop-time cache pruning (skipped_all branch of get_workload)
+FOCUS2 = ["--cfg", json.dumps({"cache": True, "fringe": "simple"})]
+CHECKS.update({
+    "C03": par_check("C03", [("sched", "allimpacted", 6, 120, 400, 6, 3), ("sched", "allimpacted", 7, 40, 150, 6, 4), ("free", "allimpacted", 7, 40, 150, 6, 16),
+                           ("sched", "reconv", 8, 150, 400, 3, 3) + tuple(FOCUS), ("sched", "reconv", 8, 100, 300, 3, 4) + tuple(FOCUS2)]),
+    "C04": par_check("C04", [("sched", "allimpacted", 6, 80, 300, 6, 4), ("threads", "allimpacted", 6, 60, 200, 6, 4), ("cutsweep", "allimpacted", 6, 25, 80, 3, 3), ("free", "allimpacted", 6, 30, 100, 6, 16),
+                            ("sched", "reconv", 8, 300, 800, 3, 3) + tuple(FOCUS), ("sched", "reconv", 8, 100, 300, 3, 4) + tuple(FOCUS2), ("free", "reconv", 8, 60, 200, 4, 8) + tuple(FOCUS)],
+                     rule_extra="; thread counts changed after construction (with_nb_threads, both directions); cutoff raised at every step of recorded schedules"),
+})
+
+add_par_part("C05", [("cutsweep", "allimpacted", 6, 40, 120, 3, 3), ("cutsweep", "allimpacted", 7, 15, 60, 3, 4), ("free", "allimpacted", 7, 40, 150, 6, 8)])
+add_par_part("C02", [("sched", "allimpacted", 6, 60, 200, 4, 3), ("cutsweep", "allimpacted", 6, 15, 50, 2, 3), ("free", "allimpacted", 6, 20, 80, 4, 8)])
+add_par_part("C09", [("sched", "allimpacted", 6, 80, 250, 4, 3) + tuple(FOCUS2), ("sched", "reconv", 8, 150, 400, 3, 3) + tuple(FOCUS), ("sched", "reconv", 8, 80, 250, 3, 3) + tuple(FOCUS2)])
+add_par_part("C14", [("primal", "allimpacted", 6, 60, 200, 4, 3)])
